@@ -28,9 +28,9 @@ def run(tier, seed):
         "correspondence": {"hyb": {"lines": r["lines"], "mismatches": len(r["mismatches"])}},
         "assumptions": ["the Python object graph (which object is cached under _dressed_<field>) is abstracted to locations, _movable "
                         "and Python attributes; object identity itself is not compared"],
-        "partial": ["the Mirror invariant over whole histories is established by the oracle on generated histories; the kernel-checked "
-                    "theorems are one-step (C18_ref_shares, C18_ref_across_buffers_refused, C18_ref_none, C18_move_refused, "
-                    "C18_copy_fresh, C18_num_get, C18_rename)"],
+        "partial": ["C18_mirror_history proves the invariant for the MODEL over all histories; that the model is the library is the tie on "
+                    "generated histories plus the Mirror oracle on the library after every operation; O-30 (stale cached offsets of "
+                    "earlier views) is below the model's abstraction and is a listed known finding"],
     }
 
 
